@@ -210,6 +210,8 @@ def enum_lines(e):
         out.append("  [is_signed: %s]" % ("true" if e.is_signed else "false"))
     if e.maximum_bits is not None:
         out.append("  [maximum_bits: %d]" % e.maximum_bits)
+    if getattr(e, "enum_case", None):
+        out.append('  [(cpp) $default enum_case: "%s"]' % e.enum_case)
     for n, v in e.values:
         out.append("  %s = %d" % (n, v))
     return out
